@@ -5,8 +5,8 @@ Reads /tmp/mut/out/<Cxx>/<A|B> and the evaluation results /tmp/mutrun/<id>*.json
 import glob, json, os, shutil, sys
 prop, var = sys.argv[1], sys.argv[2]
 note = sys.argv[3] if len(sys.argv) > 3 else ""
-ident = prop + var
-src = f"/tmp/mut/out/{prop}/{var}"
+ident = os.environ.get("SEEDED_ID") or (prop + var)          # e.g. SEEDED_ID=C09C SEEDED_SRC=/tmp/mut/out2
+src = f"{os.environ.get('SEEDED_SRC', '/tmp/mut/out')}/{prop}/{var}"
 dst = os.path.join(os.path.dirname(os.path.dirname(os.path.abspath(__file__))), "seeded", ident)
 os.makedirs(dst, exist_ok=True)
 for f in ("patch.diff", "demo_test.py", "demo.py"):
@@ -20,7 +20,7 @@ for p in sorted(glob.glob(f"/tmp/mutrun/{ident}*.json")):
     ver = {"demo_without_patch": r.get("demo_without_patch"), "demo_with_patch": r.get("demo_with_patch"),
            "applies_to_repo_head": r.get("applies")}
     for c, v in r.get("checks", {}).items():
-        ran.append(f"bin/mut_eval.py {prop} {var} --checks {c}")
+        ran.append(f"bin/mut_eval.py {prop} {var} --checks {c}" + (f" --id {ident}" if ident != prop + var else ""))
         if v.get("violations"):
             caught.append(c)
             clauses += v.get("clauses", [])
